@@ -108,7 +108,16 @@ fn check_pair(base: &str, iri: &str, parents: u8, st: &mut Stats) -> Option<Viol
 pub fn run(tier: Tier) -> Report {
     let mut rep = Report::new("C17", tier);
     let nseg = tier.pick(2, 3);
-    let all: Vec<String> = gen_iris(nseg, true).into_iter().filter(|i| Iri::new(i.as_str()).is_ok() && guarded(|| BaseIri::new(i.as_str()).is_ok()) == Ok(true)).collect();
+    let mut pool = gen_iris(nseg, true);
+    // queries and fragments containing ':' (a ':' before any '/' matters to relative references)
+    let plain: Vec<String> = pool.iter().filter(|i| !i.contains('?') && !i.contains('#')).cloned().collect();
+    for i in plain {
+        pool.push(format!("{i}?u:v"));
+        pool.push(format!("{i}#x:y"));
+        pool.push(format!("{i}?u:v#x:y"));
+    }
+    pool.sort();
+    let all: Vec<String> = pool.into_iter().filter(|i| Iri::new(i.as_str()).is_ok() && guarded(|| BaseIri::new(i.as_str()).is_ok()) == Ok(true)).collect();
     // quick: bases = a complete 1/8 slice (by seed) of the IRI set, targets = all; thorough (3 segments): bases 1/16
     let stride = tier.pick(6, 8) as u64;
     let k = rep.seed % stride;
@@ -143,7 +152,7 @@ pub fn run(tier: Tier) -> Report {
     }
     rep.stats.sample(json!({"base": bases.get(bases.len() / 2), "iri": all.get(all.len() / 3), "parents": 2}));
     rep.rule = format!(
-        "all ordered pairs (base, iri) with base in a complete 1/{stride} slice of, and iri in, the set of all valid IRIs built from scheme {{x,http}} x authority {{none,//a,//a:1,//}} x paths of <= {nseg} segments over ['',a,b,.,..,a:b,é,%2e] (rooted/rootless/empty) x 3 queries x 3 fragments, x parents in {PARENTS:?}; every returned reference is validated, resolved back with the toolkit's resolver and its leading ../ steps counted; non-trivial = a reference different from the IRI itself was returned"
+        "all ordered pairs (base, iri) with base in a complete 1/{stride} slice of, and iri in, the set of all valid IRIs built from scheme {{x,http}} x authority {{none,//a,//a:1,//}} x paths of <= {nseg} segments over ['',a,b,.,..,a:b,é,%2e] (rooted/rootless/empty) x queries ['', ?, ?q/x?, ?u:v] x fragments ['', #, #f/?, #x:y], x parents in {PARENTS:?}; every returned reference is validated, resolved back with the toolkit's resolver and its leading ../ steps counted; non-trivial = a reference different from the IRI itself was returned"
     );
     rep.bounds = json!({"segments": nseg, "parents": PARENTS, "base_slice": format!("1/{stride}")});
     rep.states_key = "states";
